@@ -487,6 +487,12 @@ func (d *Data) GetBlocks(v dvid.VersionID, start dvid.ChunkPoint3d, span int32) 
 
 	// Allocate one uncompressed-sized slice with background values.
 	blockBytes := int32(d.BlockSize().Prod()) * d.Values.BytesPerElement()
+	if span <= 0 {
+		return nil, fmt.Errorf("span of blocks must be positive, not %d", span)
+	}
+	if int64(blockBytes)*int64(span) > server.MaxDataRequest {
+		return nil, fmt.Errorf("requested %d blocks (%d bytes each) exceed this DVID server's set limit (%d)", span, blockBytes, server.MaxDataRequest)
+	}
 	numBytes := blockBytes * span
 
 	buf := make([]byte, numBytes, numBytes)
